@@ -32,14 +32,7 @@ TREE_INVS = ["TreeMutual", "CopyOK", "WholeTree"]
 # ------------------------------------------------------------------ implementation side (worker)
 
 def impl_replay(job):
-    out = []
-    for rec in job["recs"]:
-        try:
-            out.append(c08.replay_one(job["menu"], rec, final=job.get("final", True)))
-        except BaseException as e:  # noqa
-            import traceback
-            out.append({"harness_exception": repr(e), "tb": traceback.format_exc()[-2500:]})
-    return {"out": out}
+    return c08.impl_replay(job)
 
 
 class NotCopyable(Exception):
@@ -396,6 +389,7 @@ def run(tier):
            "copies_in_histories": ncopy, "pair_simulations_compared": counters.get("pairs", 0),
            "steps_projected_and_compared": counters.get("steps", 0), "simulations_compared_with_fresh_model": counters.get("fresh_cmp", 0),
            "final_mode_checks": counters.get("final_modes", 0), "design_level_drift": counters.get("drift", 0),
+           "histories_skipped_by_watchdog": counters.get("skipped", 0),
            "observations_not_judged": counters.get("obs", {}), "types_covered_by_start_objects": types,
            "tree_records_replayed": tok, "simulated_lineages_roundtripped": rstats["lineages"], "simulated_schnitzes": rstats["schnitzes"],
            "cell_states_roundtripped": rstats["cellstates"],
